@@ -87,6 +87,20 @@ func repoReach(p *core.Prog, g *callgraph.Graph, roots []*ssa.Function) map[*ssa
 			for _, an := range f.AnonFuncs {
 				walk(an, false)
 			}
+			// a method value handed on as a function (`attrs.Range(col.collect)`) runs like the closure it replaces
+			core.EachInstr(f, func(i ssa.Instruction) {
+				mc, ok := i.(*ssa.MakeClosure)
+				if !ok {
+					return
+				}
+				if w, _ := mc.Fn.(*ssa.Function); w != nil && strings.HasPrefix(w.Synthetic, "bound method wrapper") {
+					if m, _ := w.Object().(*types.Func); m != nil {
+						if mf := p.SSA.FuncValue(m); mf != nil && core.InRepo(core.FnPkgPath(mf)) {
+							walk(mf, false)
+						}
+					}
+				}
+			})
 		} else if libHop {
 			return
 		}
